@@ -353,6 +353,138 @@ fn directed_cold_spill_many_removes(rt: &tokio::runtime::Runtime, n: u32, remove
     1
 }
 
+// ---- an element type whose Clone can hold ONE chosen thread (the staging-log replay is the only place where a read clones
+// elements): lets a write be issued while a reader is inside the log of the same key
+static CLONE_GATE_ARMED: std::sync::Mutex<Option<std::thread::ThreadId>> = std::sync::Mutex::new(None);
+static CLONE_GATE_FIRED: std::sync::atomic::AtomicBool = std::sync::atomic::AtomicBool::new(false);
+static CLONE_GATE_RELEASED: std::sync::atomic::AtomicBool = std::sync::atomic::AtomicBool::new(false);
+#[derive(Debug, PartialEq, Eq, Hash, PartialOrd, Ord)]
+struct GElem(u32);
+impl Clone for GElem {
+    fn clone(&self) -> Self {
+        let mine = { let mut a = CLONE_GATE_ARMED.lock().unwrap(); if *a == Some(std::thread::current().id()) { *a = None; true } else { false } };
+        if mine {
+            CLONE_GATE_FIRED.store(true, std::sync::atomic::Ordering::SeqCst);
+            let t0 = std::time::Instant::now();
+            while !CLONE_GATE_RELEASED.load(std::sync::atomic::Ordering::SeqCst) && t0.elapsed() < std::time::Duration::from_secs(5) { std::thread::yield_now(); }
+        }
+        GElem(self.0)
+    }
+}
+impl qbice_serialize::Encode for GElem {
+    fn encode<E: qbice_serialize::Encoder + ?Sized>(&self, e: &mut E, p: &qbice_serialize::Plugin, s: &mut qbice_serialize::session::Session) -> std::io::Result<()> { self.0.encode(e, p, s) }
+}
+impl qbice_serialize::Decode for GElem {
+    fn decode<D: qbice_serialize::Decoder + ?Sized>(d: &mut D, p: &qbice_serialize::Plugin, s: &mut qbice_serialize::session::Session) -> std::io::Result<Self> { <u32 as qbice_serialize::Decode>::decode(d, p, s).map(GElem) }
+}
+#[derive(Debug, Clone, Copy, PartialEq, Eq, PartialOrd, Ord, Hash, Identifiable)]
+#[stable_type_id_crate(qbice_stable_type_id)]
+struct GSetCol;
+impl KeyOfSetColumn for GSetCol { type Key = u32; type Element = GElem; }
+
+/// directed race: a write to key k is issued while a reader is inside k's staging log (the append is parked); every read
+/// issued after the write must see it
+fn directed_write_while_log_is_busy(rt: &tokio::runtime::Runtime) -> u64 {
+    use std::sync::atomic::Ordering::SeqCst;
+    let db = MockDb::default();
+    let n = 1100u32;
+    {
+        let engine = DbBacked::new(db.clone(), Configuration::builder().cache_capacity(16).serialization_workers(1).build());
+        let manager = engine.new_write_manager();
+        let sets = engine.new_key_of_set_map::<GSetCol, Arc<DashSet<GElem>>>();
+        let mut b0 = manager.new_write_batch();
+        for e in 0..n { rt.block_on(sets.insert(7, GElem(e), &mut b0)); }
+        manager.submit_write_batch(b0);
+        drop(sets); drop(manager);
+    }
+    let engine = DbBacked::new(db.clone(), Configuration::builder().cache_capacity(16).serialization_workers(1).build());
+    let manager = engine.new_write_manager();
+    let sets = Arc::new(engine.new_key_of_set_map::<GSetCol, Arc<DashSet<GElem>>>());
+    let mut batch = manager.new_write_batch();
+    rt.block_on(sets.insert(7, GElem(5000), &mut batch));        // the staging log of key 7 exists
+    CLONE_GATE_FIRED.store(false, SeqCst); CLONE_GATE_RELEASED.store(false, SeqCst);
+    let reader = { let sets = sets.clone(); std::thread::spawn(move || {
+        *CLONE_GATE_ARMED.lock().unwrap() = Some(std::thread::current().id());
+        let rt2 = tokio::runtime::Builder::new_current_thread().build().unwrap();
+        rt2.block_on(async { sets.get(&7).await.count() })
+    }) };
+    let t0 = std::time::Instant::now();
+    while !CLONE_GATE_FIRED.load(SeqCst) && t0.elapsed() < std::time::Duration::from_secs(5) { std::thread::yield_now(); }
+    let reached = CLONE_GATE_FIRED.load(SeqCst);
+    rt.block_on(sets.insert(7, GElem(6000), &mut batch));        // issued while the log is busy (if the reader got there)
+    CLONE_GATE_RELEASED.store(true, SeqCst);
+    let _ = reader.join();
+    *CLONE_GATE_ARMED.lock().unwrap() = None;
+    let got: BTreeSet<u32> = rt.block_on(sets.get(&7)).map(|e| e.0).collect();
+    eprintln!("LAST-HISTORY directed write while the staging log is busy (reader reached the log: {reached})");
+    manager.submit_write_batch(batch);
+    drop(sets); drop(manager);
+    let mut want: BTreeSet<u32> = (0..n).collect(); want.insert(5000); want.insert(6000);
+    if got != want {
+        let missing: Vec<_> = want.difference(&got).take(5).collect();
+        let extra: Vec<_> = got.difference(&want).take(5).collect();
+        report_found("key-to-set map read does not reflect the operations issued before it",
+            &format!("{n} members durable; insert(7,5000) staged; a reader is inside key 7's staging log (reached: {reached}); insert(7,6000) issued meanwhile; reader finishes; get(7)"),
+            &format!("{} elements; missing {missing:?}; extra {extra:?}", got.len()), &format!("{} elements incl. 5000 and 6000", want.len()));
+    }
+    1
+}
+
+/// directed race: a read of a too-large set overlaps the commit AND the after-commit flush of a batch that was staged before
+/// the read began; the read must still reflect that batch (overlay taken before the scan, or store read after the commit)
+fn directed_flush_during_scan(rt: &tokio::runtime::Runtime) -> u64 {
+    use std::sync::atomic::Ordering::SeqCst;
+    let db = MockDb::default();
+    let n = 1100u32;
+    {
+        let engine = DbBacked::new(db.clone(), Configuration::builder().cache_capacity(16).serialization_workers(1).build());
+        let manager = engine.new_write_manager();
+        let sets = engine.new_key_of_set_map::<SetCol, Set>();
+        let mut b0 = manager.new_write_batch();
+        for e in 0..n { rt.block_on(sets.insert(7, e, &mut b0)); }
+        manager.submit_write_batch(b0);
+        drop(sets); drop(manager);
+    }
+    let engine = DbBacked::new(db.clone(), Configuration::builder().cache_capacity(16).serialization_workers(1).build());
+    let manager = engine.new_write_manager();
+    let sets = Arc::new(engine.new_key_of_set_map::<SetCol, Set>());
+    let _ = rt.block_on(sets.get(&7)).count();                    // the entry is now cached as "too large"
+    let _ = rt.block_on(sets.get(&7)).count();
+    db.0.commit_hold.store(true, SeqCst);
+    let commits0 = db.0.commits.lock().unwrap().len();
+    let mut b1 = manager.new_write_batch();
+    rt.block_on(sets.insert(7, 5000, &mut b1));
+    rt.block_on(sets.remove(&7, &3, &mut b1));
+    manager.submit_write_batch(b1);                               // staged, submitted, commit held back
+    db.0.gate_reached.store(false, SeqCst); db.0.gate_release.store(false, SeqCst);
+    *db.0.scan_gate.lock().unwrap() = Some(set_key::<SetCol>(&7));
+    let reader = { let sets = sets.clone(); std::thread::spawn(move || {
+        let rt2 = tokio::runtime::Builder::new_current_thread().build().unwrap();
+        rt2.block_on(async { sets.get(&7).await.collect::<BTreeSet<u32>>() })
+    }) };
+    let t0 = std::time::Instant::now();
+    while !db.0.gate_reached.load(SeqCst) && t0.elapsed() < std::time::Duration::from_secs(5) { std::thread::yield_now(); }
+    let reached = db.0.gate_reached.load(SeqCst);
+    db.0.commit_hold.store(false, SeqCst);                        // commit, then the after-commit flush trims the staging log
+    let t1 = std::time::Instant::now();
+    while db.0.commits.lock().unwrap().len() == commits0 && t1.elapsed() < std::time::Duration::from_secs(5) { std::thread::yield_now(); }
+    std::thread::sleep(std::time::Duration::from_millis(60));
+    db.0.gate_release.store(true, SeqCst);
+    let got = reader.join().unwrap();
+    *db.0.scan_gate.lock().unwrap() = None;
+    eprintln!("LAST-HISTORY directed flush during scan (reader reached the scan: {reached})");
+    drop(sets); drop(manager);
+    let mut want: BTreeSet<u32> = (0..n).collect(); want.insert(5000); want.remove(&3);
+    if got != want {
+        let missing: Vec<_> = want.difference(&got).take(5).collect();
+        let extra: Vec<_> = got.difference(&want).take(5).collect();
+        report_found("key-to-set map read does not reflect the operations issued before it",
+            &format!("{n} members durable, entry cached as too large; batch {{insert(7,5000); remove(7,3)}} staged and submitted (commit held); get(7) starts and is paused in its store scan (reached: {reached}); the batch commits and is flushed; the read finishes"),
+            &format!("{} elements; missing {missing:?}; stale/extra {extra:?}", got.len()), &format!("{} elements, with 5000, without 3", want.len()));
+    }
+    1
+}
+
 fn main() {
     let seed = seed_from_args();
     let mut rng = Rng(seed.wrapping_mul(0x9E3779B97F4A7C15) ^ 0xC09);
@@ -363,6 +495,8 @@ fn main() {
     for v in 0..3 { n += directed_older_committed(&rt, v); }
     n += directed_load_races_remove(&rt, false);
     n += directed_load_races_remove(&rt, true);
+    n += directed_write_while_log_is_busy(&rt);
+    n += directed_flush_during_scan(&rt);
     for members in [3u32, 1023, 1024, 1025, 1026, 1100, 2100] {
         n += directed_cold_spill(&rt, members, false);
         n += directed_cold_spill(&rt, members, true);
